@@ -81,3 +81,28 @@ func TestAtomicRotationInverse(t *testing.T) {
 		}
 	}
 }
+
+// Slices of a sign-extended (or re-extracted) concatenation are defined through Concat of the
+// parts' slices; the slice fusion in Concat must not try to rebuild the slice being defined from
+// a recorded origin (stack overflow in cryptobyte ReadASN1Int64 / knownhosts harnesses).
+func TestSliceFusionNoSelfReference(t *testing.T) {
+	x, y := Var("fx", 8), Var("fy", 8)
+	s := Sext(Concat(x, y), 32)
+	hi := Extract(s, 15, 8) // == x, records (s,15,8) as an origin of x
+	if hi != x {
+		t.Fatalf("Extract(sext(x:y),15,8) = %v, want x", hi)
+	}
+	e := Extract(s, 15, 7) // Concat(x, y[7:7]) is the definition of this very slice
+	r := rand.New(rand.NewSource(4))
+	for i := 0; i < 100; i++ {
+		xv, yv := uint64(r.Intn(256)), uint64(r.Intn(256))
+		m := map[string]*big.Int{"fx": new(big.Int).SetUint64(xv), "fy": new(big.Int).SetUint64(yv)}
+		want := ((xv<<8 | yv) >> 7) & 0x1ff
+		if v, ok := Eval(e, m); !ok || v.Uint64() != want {
+			t.Fatalf("got %v want %x", v, want)
+		}
+	}
+	if again := Concat(x, Extract(y, 7, 7)); again != e {
+		t.Fatalf("same slices concatenated later give a different term: %v vs %v", again, e)
+	}
+}
